@@ -255,7 +255,8 @@ static HdrInfo parse_2027(const std::vector<unsigned char>& b) {
 	return h;
 }
 // mask: bit t set -> type t of the file's type table is re-labelled as unknown
-extern "C" void h_c03(int ver, int feat, int mask, int rawSave) {
+// viaCopy: the loaded model is copied (copy constructor) and the COPY is saved
+extern "C" void h_c03(int ver, int feat, int mask, int rawSave, int viaCopy) {
 	NifFile nif;
 	fm_build(nif, ver, feat);
 	FmRange f0 = fm_save(nif, true);
@@ -293,7 +294,10 @@ extern "C" void h_c03(int ver, int feat, int mask, int rawSave) {
 	sym_assert(rc == 0, "C03-load: file with unknown block types does not load");
 	sym_assert(m.HasUnknown(), "C03-flag: unknown blocks not flagged");
 	sym_reach("loaded");
-	FmRange fo = fm_save(m, rawSave != 0);
+	NifFile mcopy(m);
+	if (viaCopy)
+		sym_assert(mcopy.HasUnknown(), "C03-flag-copy: copy of a model with unknown blocks does not know about them");
+	FmRange fo = fm_save(viaCopy ? mcopy : m, rawSave != 0);
 	std::vector<unsigned char> ob(fo.b - fo.a);
 	sym_out_read(ob.data(), fo.a, ob.size());
 	HdrInfo g = parse_2027(ob);
